@@ -81,6 +81,7 @@ func (c *Ctx) reachesEffect(fn *ssa.Function, eff IM, stop map[string]bool, dept
 }
 
 func c07(c *Ctx) {
+	c.primaryOnlyHandlers("primary-only")
 	p := c.P
 	eff := c.fsEffect()
 	writeable := GP("litefs.(*DB).Writeable(p0)", true)
